@@ -117,7 +117,7 @@ func alphabet(server bool) []op {
 	}
 	for _, id := range ids {
 		id := id
-		for _, variant := range []string{"normal=true", "normal=false", "title", "mask(title),normal=true", "mask(normal)=true"} {
+		for _, variant := range []string{"normal=true", "normal=false", "title", "mask(title),normal=true", "mask(normal)=true", "mask(normal,title)=true", "mask(title,normal)=true"} {
 			variant := variant
 			mk := func(x *sys) (*traits.ElectricMode, *fieldmaskpb.FieldMask) {
 				md := &traits.ElectricMode{Id: x.id(id), Title: "u"}
@@ -135,6 +135,12 @@ func alphabet(server bool) []op {
 				case "mask(normal)=true":
 					md.Normal = true
 					mask = &fieldmaskpb.FieldMask{Paths: []string{"normal"}}
+				case "mask(normal,title)=true":
+					md.Normal = true
+					mask = &fieldmaskpb.FieldMask{Paths: []string{"normal", "title"}}
+				case "mask(title,normal)=true":
+					md.Normal = true
+					mask = &fieldmaskpb.FieldMask{Paths: []string{"title", "normal"}}
 				}
 				return md, mask
 			}
